@@ -65,6 +65,7 @@ def returns_owned(p):
                 # names bound to an acquired handle anywhere in the function (flow-insensitive may-set)
                 hvars = set()
                 direct = set()
+                direct_idx = {}
                 for sub in walk_shallow(fi.node):
                     if not isinstance(sub, ast.Call):
                         continue
@@ -78,6 +79,7 @@ def returns_owned(p):
                     if idx == "no":
                         continue
                     direct.add(id(sub))
+                    direct_idx[id(sub)] = idx
                     par = getattr(sub, "_parent", None)
                     v = _handle_var_of(par, sub, idx)
                     if v:
@@ -91,7 +93,11 @@ def returns_owned(p):
                     elts = val.elts if isinstance(val, ast.Tuple) else [val]
                     for i, e in enumerate(elts):
                         if (isinstance(e, ast.Name) and e.id in hvars) or id(e) in direct:
-                            summ[fi.qual] = i if isinstance(val, ast.Tuple) else None
+                            if not isinstance(val, ast.Tuple) and direct_idx.get(id(e)) is not None:
+                                # `return helper(...)` where the helper returns (handle, ...): the tuple is passed on as it is
+                                summ[fi.qual] = direct_idx[id(e)]
+                            else:
+                                summ[fi.qual] = i if isinstance(val, ast.Tuple) else None
                             changed = True
         return summ
     return p.cached("io.returns_owned", build)
